@@ -385,7 +385,7 @@ pub fn run(ctx: &Ctx) -> Report {
   let mut report = Report::new(
     "structure-aware generator: valid torrents with one field made extreme or ill-typed (huge/negative integers, md5sum of every length 0-40 and non-hex, empty/huge/odd path lists, dates around the calendar range and u64::MAX, \
      invalid UTF-8, nesting 1..10^6, lengths summing past 2^64, key type swaps, bad nodes, odd pieces lengths, both/neither mode) plus a malformed stream (truncations, bit flips, random bytes, token soup, empty); \
-     each file through show / show --json / --terminal show / link / verify (3 forms) / dump / stats / announce, by path and on stdin; argument strings for byte size, host:port, sort spec, glob, URL and magnet; \
+     each file through show / show --json / --terminal show / link / verify (3 forms) / dump / stats / announce, by path and on stdin; argument strings for byte size, host:port, sort spec, glob, URL and magnet, and argument vectors that are not valid UTF-8 in every value, subcommand and flag position; \
      non-trivial = any file other than a plainly accepted one, any argument case; distinct by content hash",
   );
   report.correspondences.push("C08.utf8: Imdlv.Peer.isUtf8 (RFC 3629 validator of the model) = std::str::from_utf8 acceptance".into());
@@ -496,6 +496,41 @@ pub fn run(ctx: &Ctx) -> Report {
       report.fail("property", &format!("crash:{label}"), json!({"args": a}), format!("code {:?} signal {:?}: {}", o.code, o.signal, strip(&o.stderr_s()).lines().last().unwrap_or("")));
     } else if o.code == Some(1) && !strip(&o.stderr_s()).contains("error") {
       report.fail("property", "exit-1-without-error-diagnostic", json!({"args": a}), strip(&o.stderr_s()));
+    }
+  }
+  // ---- argument vectors that are not text: every option that takes a value, with bytes that are not valid UTF-8
+  // (also NUL-free control bytes and over-long sequences), and invalid bytes in subcommand and flag positions
+  {
+    let bad: [&[u8]; 6] = [b"\xff", b"a\xffb", b"\xc3\x28", b"\xed\xa0\x80", b"1\xffkib", b"\xf4\x90\x80\x80"];
+    let opts: [&[&str]; 14] = [
+      &["torrent", "create", "--input", "data", "--dry-run", "--piece-length"], &["torrent", "create", "--input", "data", "--dry-run", "--node"],
+      &["torrent", "create", "--input", "data", "--dry-run", "--comment"], &["torrent", "create", "--input", "data", "--dry-run", "--glob"],
+      &["torrent", "create", "--input", "data", "--dry-run", "--sort-by"], &["torrent", "create", "--input", "data", "--dry-run", "--announce"],
+      &["torrent", "create", "--input", "data", "--dry-run", "--name"], &["torrent", "create", "--dry-run", "--input"],
+      &["torrent", "link", "--input", "t.torrent", "--peer"], &["torrent", "show", "--input"], &["torrent", "verify", "--input", "t.torrent", "--content"],
+      &["torrent", "from-link"], &["completions", "--shell"], &["torrent"],
+    ];
+    let mut cases: Vec<Vec<Vec<u8>>> = Vec::new();
+    for o in opts {
+      for b in bad {
+        let mut a: Vec<Vec<u8>> = o.iter().map(|s| s.as_bytes().to_vec()).collect();
+        a.push(b.to_vec());
+        cases.push(a);
+      }
+    }
+    cases.push(vec![b"--\xff".to_vec()]);
+    cases.push(vec![b"torrent".to_vec(), b"create".to_vec(), b"--input".to_vec(), b"data".to_vec(), b"--dry-run".to_vec(), b"--comm\xffent".to_vec(), b"x".to_vec()]);
+    let results: Vec<(Vec<Vec<u8>>, crate::run::Out)> = cases.into_par_iter().map(|a| { let o = Cmd::args_bytes(&ctx.imdl, a.clone()).cwd(&sb.root).timeout_s(60).run(); (a, o) }).collect();
+    for (a, o) in results {
+      let case = json!({"argv_hex": a.iter().map(|x| hex(x)).collect::<Vec<_>>()});
+      report.case(Some(fnv(case.to_string().as_bytes())));
+      report.hit("arg:not-utf8");
+      let normal = o.signal.is_none() && (o.code == Some(0) || o.code == Some(1));
+      if !normal {
+        report.fail("property", "crash:arg:not-utf8", case, format!("code {:?} signal {:?}: {}", o.code, o.signal, strip(&o.stderr_s()).lines().find(|l| l.contains("panicked")).unwrap_or("")));
+      } else if o.code == Some(1) && !strip(&o.stderr_s()).contains("error") {
+        report.fail("property", "exit-1-without-error-diagnostic", case, strip(&o.stderr_s()));
+      }
     }
   }
   report
